@@ -12,6 +12,7 @@ import (
 	"reflect"
 	"sort"
 	"strings"
+	"unsafe"
 
 	"gxm/p"
 	"gxm/vrt"
@@ -111,6 +112,10 @@ func fill(v reflect.Value, vec int, counter *int) {
 	t := v.Type()
 	for i := 0; i < t.NumField(); i++ {
 		f := v.Field(i)
+		if !f.CanSet() && f.CanAddr() {
+			// a member of another package that is not exported: the driver may write where generated code may not
+			f = reflect.NewAt(f.Type(), unsafe.Pointer(f.UnsafeAddr())).Elem()
+		}
 		switch f.Kind() {
 		case reflect.Struct:
 			fill(f, vec, counter)
@@ -413,7 +418,7 @@ func main() {
 				var args []reflect.Value
 				pi := 0
 				var dstPtr reflect.Value
-				if pr.Style == "arg" {
+				if pr.Style == "arg" || pr.Style == "argval" {
 					dstPtr = reflect.New(ft.In(0).Elem())
 					c := 0
 					fill(dstPtr.Elem(), 9, &c)
